@@ -68,11 +68,11 @@ CLAIMED = {
 SESSION_GENERIC = ("Executable Coq model of session.go+cache.go (Model/Sess.v, Model/Hist.v) compared with the real package on the FULL observation (result, returned session, cookies, script results, every persistence call with payload, cache, store, jar, clock, IDs drawn, Expired()) after every step of generated histories run under a virtual clock behind a serialising store (gob and JSON), incl. fault and crash enumeration and a corpus of the repaired defects; a property-specific oracle judges every real trace. Theorems: those of coq/Properties/%s.v (statement file; names and Print Assumptions output are in the evidence).")
 for pid, extra, tech in [
     ("C01", "Theorems: C01_isolation_step (a Start that returns a session returns either one created by this call - next ordinal, empty, no user - or the session the presented ID resolves to in the pre-state, field by field / up to the codec through replaced-ID records) and C01_isolation_hist_partial (the same in every state reachable by a fault-free history). The full history-level safety statement is kept as Definition C01_statement (ghost per-client specification), tested by vm_compute, not proved; the liveness half rests on C03_live_run/C09_wt and is judged on real traces by the oracle (client-history validity). C01_with_getdel_refuted records D6. PARTIAL.", "Coq per-step lemmas + invariants + differential correspondence + trace oracle"),
-    ("C02", "C02_unknown: for every reachable-shaped state and every unknown 24-character value: no existing session, fresh server ID, only one load under the value, logical content of every other ID unchanged; non-24-character values are never looked up.", "Coq per-call theorem over all states + correspondence with forged-cookie stream"),
-    ("C03", "C03_dead (stale record => not served, removed from cache and store, cookie expired), C03_expired_pred (Expired() false for a session Start would return), C03_live as far as proved.", "Coq per-call theorems + correspondence with waits at thresholds +-1ns + steady-client histories"),
+    ("C02", "C02_unknown / C02_nolookup per call (no existing session, fresh server ID, only one load under the value, logical content of every other ID unchanged; non-24-character values are never looked up) and their history-level forms (Properties/C02H.v): the state hypotheses hold in every state of a fault-free history (C02H_hypotheses_hold), junk values, not-yet-issued IDs and IDs that are gone never resolve in any continuation (C02H_junk_unknown, C02H_undrawn_unknown, C02H_gone_unknown). Assumption: presented values are not future draws (2^-128).", "Coq per-call theorem over all states + correspondence with forged-cookie stream"),
+    ("C03", "Per call: C03_dead, C03_expired_pred, C03_live. History level (Properties/C03H.v): C03H_access_monotone (through the codec the access time of every ID never decreases along calm histories - evictions, sweeps, purges, config changes, any clients - for every cache size), C03H_access_now, C03H_live (a client whose gaps are below SessionExpiry minus the codec's slack, from acceptable peers, with cache size >= 1, is served at every request incl. rotating ones and after evict/purge/reload, for all values of the other durations), C03H_dead_hist (a stale ID never resolves again in any continuation incl. crashes and restarts).", "Coq per-call theorems + correspondence with waits at thresholds +-1ns + steady-client histories"),
     ("C04", "C04_seq for regenerate/login/start (due => exactly one draw, cookie, same data/user, old ID becomes reference; not due => nothing), instances for 0 and MaxInt64; concurrent clause checked on K=2..32 real goroutines (one draw, one session) and resting on C13.", "Coq per-call theorems + correspondence + real concurrent runs"),
     ("C05", "C05_chain (follow reaches the live session, fuel suffices under ref_wf), C05_pending/C05_grace_dead, C05_backstop, C05_expired_ref. Known finding D10 (SessionExpiry < grace) reported as KNOWN-FINDING.", "Coq per-call theorems + correspondence with chains, grace +-1ns, restarts"),
-    ("C06", "C06_ip/C06_ua (the pure rules as iff-specifications for all peers/n/agents), C06_destroy (anomaly => record destroyed, request refused), C06_moves (comparison point follows accepted requests).", "Coq pure-rule specifications + per-call theorems + correspondence over address/agent pairs"),
+    ("C06", "C06_ip/C06_ua (the pure rules as iff-specifications for all peers/n/agents), C06_destroy, C06_moves per call; history level (Properties/C06H.v): C06H_destroy for every reachable state, C06H_destroy_for_good (the destroyed ID never resolves again), C06H_moves (for every world, fault plan and crash: the returned session carries the request's peer, agent and instant).", "Coq pure-rule specifications + per-call theorems + correspondence over address/agent pairs"),
     ("C07", "Theorems (fault-free histories incl. crashes, cache loss, restarts): C07_destroy; C07_inv_step/C07_inv_hist (cache_ok, nodup_ok, fresh_ok preserved by every step); C07_not_reissued (an ID in use is never drawn again); C07_stays_dead (a drawn ID absent from cache and store is never cached, stored, saved under, returned by Start, held by a handler or sent as a live cookie in any continuation); C07_destroyed_never_returns / C07_invalidated_never_returns (the ending step expires the cookie and leaves the ID dead).", "Coq per-call lemma + history invariants + correspondence with replays of former IDs"),
     ("C08", "Theorems per call over memory and store on every state satisfying the history invariant: C08_login (user attached, fresh ID, stored record under the new ID carries the user, replaced ID carries none; exclusive: every other listed ID carries no user in store nor L), C08_logout, C08_logout_user, C08_refresh, C08_index, C08_tolerant (never Panic/Err; listed-but-missing IDs skipped). Survival across cache loss follows from C09_loss.", "Coq per-call theorems + correspondence over users/sessions/stale listings"),
     ("C18", "every CkLive carries the ID (at the end of the call) of the session returned/operated on and resolves to a non-reference record; no cookie when nothing changed; CkDelete only when the presented ID is gone; the model never emits a malformed cookie. Template attributes are tied by the harness comparing every Set-Cookie with the randomised template's own serialisation.", "Coq per-call cookie theorems + correspondence with randomised cookie templates"),
